@@ -1,3 +1,54 @@
-Require Import Base Opcode Tables Ops Tree Opt Flat Run.
-Example placeholder_C10 : True. Proof. exact I. Qed.
-Print Assumptions placeholder_C10.
+(* C10 — Constant folding respects operator purity and defers failures to run time.
+   Only statements; proofs in Proofs/Fold.v, EvalTop.v. *)
+Require Import Base Opcode Tables Ops Tree Opt Flat Run Fold EvalDefs EvalTop.
+Open Scope Z_scope.
+
+(* (a) every operator invoked while compiling (the constant-folding log of the model, compared with the calls Go
+   makes with a nil context on every run) is stateless: in the generated built-in stateless list, or listed in
+   Config.StatelessOperators AND registered *)
+Theorem C10_only_stateless_at_compile_time : forall custom cfg t c,
+  In c (snd (cfold custom cfg t)) -> is_stateless cfg (fst c).
+Proof. exact cfold_calls_stateless. Qed.
+
+(* the generated stateless list only names operators of the generated table (the folding function exists) *)
+Theorem C10_stateless_names_are_builtin :
+  forallb (fun n => match assoc_s n builtin_table with Some _ => true | None => false end) builtin_stateless = true.
+Proof. vm_compute. reflexivity. Qed.
+
+(* (b) a failing constant sub-expression is left in place: Compile succeeds, and by C01's theorem the error comes
+   out of Eval exactly when the left-to-right semantics reaches that sub-expression *)
+Theorem C10_fold_failure_kept : forall custom cfg name fast cs fn vs e,
+  stateless_fn custom cfg name = Some fn -> all_consts cs = Some vs -> fn vs = Err e ->
+  (forall d, op_kind name = Some d -> bool_scan d cs = Some None) ->
+  fst (fold_node custom cfg name fast cs) = TOp name fast cs.
+Proof. exact fold_failure_kept. Qed.
+Theorem C10_failure_surfaces_from_eval : forall fetch custom t,
+  eval fetch custom (compile t) = sem_obs (sem fetch custom t).
+Proof. exact run_compile_correct. Qed.
+
+(* (c) an operator that is not stateless is never folded, whatever its operands: its call stays in the program
+   and (C03's theorem) is made in every evaluation that reaches it *)
+Theorem C10_impure_never_folded : forall custom cfg name fast cs, stateless_fn custom cfg name = None ->
+  fst (cfold custom cfg (TOp name fast cs)) = TOp name fast (map (fun c => fst (cfold custom cfg c)) cs).
+Proof. exact cfold_impure_node. Qed.
+
+(* (d) a node with a non-constant operand is replaced by a constant only when a constant operand of an and/or
+   already decides it *)
+Theorem C10_fold_var_only_if_decided : forall custom cfg name fast cs v,
+  fst (fold_node custom cfg name fast cs) = TConst v -> ~ Forall (fun c => exists w, c = TConst w) cs ->
+  exists d, op_kind name = Some d /\ v = VBool d /\ In (TConst (VBool d)) cs.
+Proof. exact fold_var_only_if_decided. Qed.
+
+(* non-vacuity *)
+Definition cfg1 : config := {| enabled := []; stateless := [ss "pure"]; registered := [ss "pure"; ss "now"]; costs := []; events := false |}.
+Definition cust (n : str) (a : list value) : res value := if str_eqb n (ss "pure") then Ok (VInt 7) else Ok (VInt 42).
+Example C10_ex :
+  fst (cfold cust cfg1 (TOp (ss "+") false [TOp (ss "pure") false []; TOp (ss "now") false []; TOp (ss "/") false [TConst (VInt 1); TConst (VInt 0)]]))
+  = TOp (ss "+") false [TConst (VInt 7); TOp (ss "now") false []; TOp (ss "/") false [TConst (VInt 1); TConst (VInt 0)]]
+  /\ snd (cfold cust cfg1 (TOp (ss "+") false [TOp (ss "pure") false []; TOp (ss "now") false []; TOp (ss "/") false [TConst (VInt 1); TConst (VInt 0)]]))
+  = [(ss "pure", []); (ss "/", [VInt 1; VInt 0])]
+  /\ fst (cfold cust cfg1 (TOp (ss "and") false [TVar (ss "x") 1; TConst (VBool false); TOp (ss "now") false []])) = TConst (VBool false).
+Proof. vm_compute. repeat split. Qed.
+
+Print Assumptions C10_only_stateless_at_compile_time.
+Print Assumptions C10_fold_var_only_if_decided.
